@@ -403,6 +403,27 @@ def spec_check(plan, ops, arrivals, reports):
                     viol.append(("data-frame-lost", f"read issued at op {i} timed out at {t} ms although data frame "
                                                     f"{avail[delivered]['data'].hex()} had arrived at {avail[delivered]['t']} ms"))
                     break
+    # S1c: the stream ended, but frames completely received before a read was issued are still handed out: a read
+    # that ends with an error although the next expected data frame had been received (before the read started),
+    # with the connection not closed and no error control word in between, has lost that frame
+    if not viol:
+        delivered = 0
+        for i, op in client_ops:
+            if i not in results:
+                continue
+            t, r = results[i]
+            if r.startswith("data:"):
+                delivered += 1
+            elif op[0] == "read" and (r in ("peerclosed", "badfd", "connreset") or r.startswith(("brokenpipe", "exc:"))):
+                if closed_before[i] or any(e["op"] <= i for e in err_arrivals):
+                    continue
+                avail = [e for e in expected if e["op"] < i]
+                if len(avail) > delivered:
+                    viol.append(("data-frame-lost-at-end-of-stream",
+                                 f"read issued at op {i} ended with {r} at {t} ms although data frame "
+                                 f"{avail[delivered]['data'].hex()} had been received completely at {avail[delivered]['t']} ms "
+                                 f"and not been delivered"))
+                    break
     # S2: write result vs. matching ack
     for i, op in client_ops:
         if op[0] != "write" or i not in results:
@@ -585,6 +606,15 @@ def corpus():
     P("eof-during-ack-wait", [["W", rdbi.hex(), None], ["A", 10], ["E"], ["A", 1100], ["R", 50], ["A", 60]])
     P("eof-behind-queued-frames", [["F", [["dT", a["dT"].hex()], ["dO", a["dO"].hex()]], []], ["A", 5], ["E"], ["A", 5],
                                    ["W", REQ_SHORT.hex(), None], ["A", 20]] + reads(2))
+    # frames queued, then the stream ends, then the client reads: everything received is delivered first (in order),
+    # then the reads end with a connection error
+    for y in (0, 1):
+        b = alphabet(REQ_SHORT, 1)
+        P("eof-then-reads:dT,dT", [["F", [["dT", a["dT"].hex()], ["dT", b["dT"].hex()]], []], ["A", 5], ["E"], ["A", 5]] + reads(3), yields=y)
+        P("eof-then-reads:ack,dT|W", [["W", REQ_SHORT.hex(), None], ["A", 3], ["F", [["ack", a["ack"].hex()], ["dT", a["dT"].hex()]], []],
+                                     ["E"], ["A", 50]] + reads(2), yields=y)
+        P("eof-then-reads:dO,dT,alive,dT", [["F", [["dO", a["dO"].hex()], ["dT", a["dT"].hex()], ["alive", a["alive"].hex()],
+                                                  ["dT", b["dT"].hex()]], [9]], ["E"], ["A", 5]] + reads(3), yields=y)
     return out
 
 
